@@ -307,3 +307,238 @@ class ContextBeforeClose:
     def ensures_appended_after_the_functions_already_registered(self, self_post):
         return (len(self_post._before_close) == 3 and self_post._before_close[0].n == 0
                 and self_post._before_close[1].n == 1 and self_post._before_close[2].n == 2)
+
+
+from pyvc.values import TReal   # noqa: E402
+import z3   # noqa: E402
+
+# ---- discover_connections: one Ethernet chip position (fragment of its loop) -------------------------------------------------------
+
+
+def _wc_contains(E, obj, args, kwargs, st, node):
+    return [(st, st.env["g_working"], None)]
+
+
+def _conns_contains(E, obj, args, kwargs, st, node):
+    return [(st, st.env["g_connected"], None)]
+
+
+def _get_ip(E, obj, args, kwargs, st, node):
+    from pyvc.engine import Raised
+    s = st.copy()
+    s.trace = ListV(s.trace.items + (("get_ip_address",) + tuple(args),))
+    ok = s.assume(z3.Not(st.env["g_ip_fails"]))
+    bad = s.assume(st.env["g_ip_fails"])
+    return [(ok, st.env["g_ip"], None), (bad, Raised(ExcV("SCPError", ())), None)]
+
+
+def _new_conn(E, args, kwargs, st, node):
+    s = st.copy()
+    s.trace = ListV(s.trace.items + (("connection_made",) + tuple(args) + tuple(sorted(kwargs.items())),))
+    return [(s, ObjV("SCPConnection", {"ident": 7}))]
+
+
+def _conns_set(E, obj, args, kwargs, st, node):
+    s = st.copy()
+    s.trace = ListV(s.trace.items + (("connection_kept_for", args[0]),))
+    return [(s, NONE, None)]
+
+
+def _conns_pop(E, obj, args, kwargs, st, node):
+    s = st.copy()
+    s.trace = ListV(s.trace.items + (("connection_dropped_for", args[0]),))
+    return [(s, ObjV("SCPConnection", {"ident": 7}), None)]
+
+
+def _conn_close(E, obj, args, kwargs, st, node):
+    s = st.copy()
+    s.trace = ListV(s.trace.items + (("closed",),))
+    return [(s, NONE, None)]
+
+
+def _get_version(E, obj, args, kwargs, st, node):
+    from pyvc.engine import Raised
+    s = st.copy()
+    s.trace = ListV(s.trace.items + (("tested",) + tuple(args),))
+    ok = s.assume(z3.Not(st.env["g_test_fails"]))
+    bad = s.assume(st.env["g_test_fails"])
+    return [(ok, NONE, None), (bad, Raised(ExcV("SCPError", ())), None)]
+
+
+@contract("rig/machine_control/machine_controller.py::MachineController.discover_connections@forbody:0")
+class DiscoverOneBoard:
+    """one Ethernet chip position: nothing is done for a chip that is not working or already has a connection; otherwise its
+    address is asked for - a chip that cannot say, or has none (link down), gets no connection - and a connection to exactly
+    that address is made with the CONTROLLER'S OWN port, number of tries and timeout, filed under exactly this chip, and tried
+    once with a command to this chip: it is counted when the command is answered and dropped and closed when it is not"""
+    properties = ("C18", "C06")
+    params = dict(self=TRec("MachineController", scp_port=TInt(0, 65535), n_tries=TInt(1, None), timeout=TReal(), connections=TRec("Connections")),
+                  x=TInt(0, 255), y=TInt(0, 255), working_chips=TRec("WorkingChips"), num_new_connections=TInt(0, None),
+                  g_working=TBool(), g_connected=TBool(), g_ip=TOpt(TInt()), g_ip_fails=TBool(), g_test_fails=TBool())
+    fragment_result = ("num_new_connections",)
+    fragment_head = "for x, y in spinn5_eth_coords(self._width, self._height, *self.root_chip):"
+    externals = {"WorkingChips.__contains__": _wc_contains, "Connections.__contains__": _conns_contains, "MachineController.get_ip_address": _get_ip,
+                 "class:SCPConnection": _new_conn, "Connections.__setitem__": _conns_set, "Connections.pop": _conns_pop, "SCPConnection.close": _conn_close,
+                 "MachineController.get_software_version": _get_version}
+    options = {"no_merge": True}
+    assumptions = ["the set of working chips, the controller's connections and the probes (get_ip_address, get_software_version) are opaque: membership, "
+                   "answers and failures are ghosts, what is made / filed / dropped / closed is recorded"]
+
+    def native(x):
+        raise __import__("pyvc.replay", fromlist=["OutsideHarness"]).OutsideHarness()
+
+    def ensures_connection_made_only_for_a_working_unconnected_chip_with_an_address_and_with_the_controllers_own_settings(
+            self, x, y, num_new_connections, g_working, g_connected, g_ip, g_ip_fails, g_test_fails, result, _trace):
+        wanted = g_working and not g_connected
+        n = len(_trace)
+        return (implies(not wanted, n == 0 and result[0] == num_new_connections)
+                and implies(wanted, n >= 1 and _trace[0] == ("get_ip_address", x, y))
+                and implies(wanted and (g_ip_fails or g_ip is None), n == 1 and result[0] == num_new_connections)
+                and implies(wanted and not g_ip_fails and g_ip is not None,
+                            n >= 4 and _trace[1] == ("connection_made", unopt_(g_ip), self.scp_port, self.n_tries, self.timeout)
+                            and _trace[2] == ("connection_kept_for", (x, y)) and _trace[3] == ("tested", x, y, 0)
+                            and implies(not g_test_fails, n == 4 and result[0] == num_new_connections + 1)
+                            and implies(g_test_fails, n == 6 and _trace[4] == ("connection_dropped_for", (x, y)) and _trace[5] == ("closed",)
+                                        and result[0] == num_new_connections)))
+
+
+def unopt_(x):
+    return x
+
+
+
+def _self_call(E, obj, args, kwargs, st, node):
+    """controller(**context_args): a new context block holding exactly those arguments (Context.__init__ / get_new_context)"""
+    s = st.copy()
+    s.trace = ListV(s.trace.items + (("new_block", tuple(args), tuple(sorted(kwargs.items()))),))
+    return [(s, ObjV("Context", {"ident": 1}), None)]
+
+
+def _before_close(E, obj, args, kwargs, st, node):
+    """context.before_close(f): f is recorded by what it does when called (here: in the state of the registration)"""
+    out = []
+    for f in args:
+        for s2, _ in E.call(f, [], {}, st, node):
+            s3 = s2.copy()
+            s3.trace = ListV(s3.trace.items + (("registered_to_run_before_the_block_closes",),))
+            out.append((s3, NONE, None))
+    return out
+
+
+def _send_signal(E, obj, args, kwargs, st, node):
+    s = st.copy()
+    s.trace = ListV(s.trace.items + (("send_signal", tuple(args), tuple(sorted(kwargs.items()))),))
+    return [(s, NONE, None)]
+
+
+@contract("rig/machine_control/machine_controller.py::MachineController.application")
+class ApplicationBlock:
+    """`with controller.application(n):` is a block that sets exactly the application id, with ONE close function - run (by
+    Context.__exit__, whatever the exit: its own contract) before the block is taken off the stack - that sends the `stop`
+    signal without naming an application: so the signal goes to the application of this very block"""
+    properties = ("C18",)
+    params = dict(self=TRec("MachineController"), app_id=TInt(0, 255))
+    externals = {"MachineController.__call__": _self_call, "Context.before_close": _before_close, "MachineController.send_signal": _send_signal}
+    options = {"decorators": {"use_contextual_arguments": "identity"}}
+    assumptions = ["controller(...) and Context.before_close are recorded (their contracts: Context.__init__, ContextBeforeClose); the close function is "
+                   "run once at registration to see what it does"]
+
+    def native(app_id):
+        raise __import__("pyvc.replay", fromlist=["OutsideHarness"]).OutsideHarness()
+
+    def ensures_a_block_for_this_application_that_stops_it_when_left(app_id, result, _trace):
+        return (len(_trace) == 3 and _trace[0] == ("new_block", (), (("app_id", app_id),))
+                and _trace[1] == ("send_signal", ("stop",), ()) and _trace[2] == ("registered_to_run_before_the_block_closes",)
+                and result.ident == 1)
+
+
+# ---- the BMP commands that name boards by a mask (set_power, set_led) ---------------------------------------------------------------
+BOARD = TInt(0, 23)
+
+
+def _bmp_send(E, obj, args, kwargs, st, node):
+    s = st.copy()
+    s.trace = ListV(s.trace.items + (("bmp_command",) + tuple(args[:3]) + (tuple(sorted((k, v) for k, v in kwargs.items() if k in ("arg1", "arg2"))),),))
+    return [(s, NONE, None)]
+
+
+def _sleep18(E, args, kwargs, st, node):
+    return [(st, NONE)]
+
+
+@contract("rig/machine_control/bmp_controller.py::BMPController.set_power", variant="one_board")
+class SetPowerOneBoard:
+    """power command for one board: addressed to board 0 of the frame, the board named by its own bit of the mask"""
+    properties = ("C18",)
+    params = dict(self=TRec("BMPController"), state=TBool(), cabinet=TInt(0, 255), frame=TInt(0, 255), board=BOARD)
+    externals = {"BMPController._send_scp": _bmp_send, "sleep": _sleep18}
+    options = {"decorators": {"use_contextual_arguments": "identity"}, "no_merge": True}
+    assumptions = ["BMPController._send_scp is recorded (its contract: BmpSendScp); the delays are left at their defaults"]
+
+    def native(state):
+        raise __import__("pyvc.replay", fromlist=["OutsideHarness"]).OutsideHarness()
+
+    def ensures_the_frames_controller_is_told_exactly_this_board(state, cabinet, frame, board, _trace):
+        return (len(_trace) == 1 and _trace[0][1] == cabinet and _trace[0][2] == frame and _trace[0][3] == 0
+                and _trace[0][4] == (("arg1", 1 if state else 0), ("arg2", 2 ** board)))
+
+
+@contract("rig/machine_control/bmp_controller.py::BMPController.set_power", variant="three_boards")
+class SetPowerThreeBoards:
+    """power command for several boards given in the caller's own order: one command, every board's bit in the mask"""
+    properties = ("C18",)
+    params = dict(self=TRec("BMPController"), state=TBool(), cabinet=TInt(0, 255), frame=TInt(0, 255), board=TList(BOARD, BOARD, BOARD))
+    externals = {"BMPController._send_scp": _bmp_send, "sleep": _sleep18}
+    options = {"decorators": {"use_contextual_arguments": "identity"}, "no_merge": True}
+
+    def native(state):
+        raise __import__("pyvc.replay", fromlist=["OutsideHarness"]).OutsideHarness()
+
+    def requires(board):
+        return board[0] != board[1] and board[1] != board[2] and board[0] != board[2]
+
+    def ensures_every_board_named_is_in_the_mask(state, cabinet, frame, board, _trace):
+        return (len(_trace) == 1 and _trace[0][1] == cabinet and _trace[0][2] == frame and _trace[0][3] == 0
+                and _trace[0][4] == (("arg1", 1 if state else 0), ("arg2", 2 ** board[0] + 2 ** board[1] + 2 ** board[2])))
+
+
+from pyvc.values import TOpt   # noqa: E402
+
+
+@contract("rig/machine_control/bmp_controller.py::BMPController.set_led", variant="one_board")
+class SetLedOneBoard:
+    """one LED of one board: the command goes to THAT board, with its bit as the mask and the action (3 on, 2 off, 1 toggle when
+    none is given) in the LED's two bits"""
+    properties = ("C18",)
+    params = dict(self=TRec("BMPController"), led=TInt(0, 7), action=TOpt(TBool()), cabinet=TInt(0, 255), frame=TInt(0, 255), board=BOARD)
+    externals = {"BMPController._send_scp": _bmp_send}
+    options = {"decorators": {"use_contextual_arguments": "identity"}, "no_merge": True, "int_class": "rig/machine_control/consts.py::LEDAction"}
+
+    def native(led):
+        raise __import__("pyvc.replay", fromlist=["OutsideHarness"]).OutsideHarness()
+
+    def ensures_sent_to_the_board_named(led, action, cabinet, frame, board, _trace):
+        code = 1 if action is None else (3 if action else 2)
+        return (len(_trace) == 1 and _trace[0][1] == cabinet and _trace[0][2] == frame and _trace[0][3] == board
+                and _trace[0][4] == (("arg1", code * 2 ** (2 * led)), ("arg2", 2 ** board)))
+
+
+@contract("rig/machine_control/bmp_controller.py::BMPController.set_led", variant="three_boards")
+class SetLedThreeBoards:
+    """several boards in the caller's own order: ONE command, sent to the FIRST board named, with every board's bit in the mask"""
+    properties = ("C18",)
+    params = dict(self=TRec("BMPController"), led=TInt(0, 7), action=TOpt(TBool()), cabinet=TInt(0, 255), frame=TInt(0, 255),
+                  board=TList(BOARD, BOARD, BOARD))
+    externals = {"BMPController._send_scp": _bmp_send}
+    options = {"decorators": {"use_contextual_arguments": "identity"}, "no_merge": True, "int_class": "rig/machine_control/consts.py::LEDAction"}
+
+    def native(led):
+        raise __import__("pyvc.replay", fromlist=["OutsideHarness"]).OutsideHarness()
+
+    def requires(board):
+        return board[0] != board[1] and board[1] != board[2] and board[0] != board[2]
+
+    def ensures_sent_once_to_the_first_board_with_the_mask_of_all(led, action, cabinet, frame, board, _trace):
+        code = 1 if action is None else (3 if action else 2)
+        return (len(_trace) == 1 and _trace[0][1] == cabinet and _trace[0][2] == frame and _trace[0][3] == board[0]
+                and _trace[0][4] == (("arg1", code * 2 ** (2 * led)), ("arg2", 2 ** board[0] + 2 ** board[1] + 2 ** board[2])))
